@@ -2,6 +2,7 @@ package model
 
 import (
 	"math/rand"
+	"sort"
 	"strings"
 )
 
@@ -28,7 +29,7 @@ type Ex struct {
 	Kids []*Ex
 }
 
-func Lit(s string) *Ex { return &Ex{Kind: XLit, Text: s} }
+func Lit(s string) *Ex    { return &Ex{Kind: XLit, Text: s} }
 func Ref(name string) *Ex { return &Ex{Kind: XRef, Name: Lit(name)} }
 
 func escTop(s string) string { return strings.ReplaceAll(s, "$", "$$") }
@@ -92,21 +93,21 @@ type Setting struct {
 
 // World is a configuration with its lookup layers.
 type World struct {
-	Root map[string]*Setting       // full dotted path -> setting
-	Envs []map[string]string       // in the order they were added
-	Ress []map[string]string       // in the order they were added
+	Root map[string]*Setting // full dotted path -> setting
+	Envs []map[string]string // in the order they were added
+	Ress []map[string]string // in the order they were added
 }
 
 // Res is the outcome of a model evaluation.
 type Res struct {
-	S      string
-	Val    interface{} // typed value when the evaluation ended in a plain typed setting via a single reference
-	IsErr  bool
+	S     string
+	Val   interface{} // typed value when the evaluation ended in a plain typed setting via a single reference
+	IsErr bool
 	// Container: the reference ended in an object/list (Val is the *Node); only a
 	// setting that is exactly one reference can carry it, any string context fails
 	Container bool
-	Cyclic    bool // the error is an unabsorbed re-entry
-	Msg    string // message of a ${x:?m} failure, or "missing"/"unresolved"
+	Cyclic    bool   // the error is an unabsorbed re-entry
+	Msg       string // message of a ${x:?m} failure, or "missing"/"unresolved"
 }
 
 // Trace records what an evaluation did; the checks use it to decide the
@@ -114,6 +115,7 @@ type Res struct {
 type Trace struct {
 	Steps    int
 	ReEntry  bool           // some reference was re-entered (cycle met)
+	Absorbed bool           // a re-entry was absorbed by a resolver or by an operator
 	Enter    map[string]int // how often each root setting was entered
 	Layers   []string       // layer that answered each resolved reference: root/envN/resN
 	Budget   bool
@@ -163,11 +165,13 @@ func (ev *Evaluator) layer(kind string, i int) {
 	}
 }
 
-// EvalRef resolves a name: the tree the setting lives in (from its root), then
-// the Env configs most recently added first, then the resolvers most recently
-// added first. A name that is still being evaluated is a cyclic reference,
-// which a resolver that knows the name absorbs.
-func (ev *Evaluator) EvalRef(name string, st []string) Res {
+// refValue resolves a name in value context: the tree the setting lives in
+// (from its root), then the Env configs most recently added first, then the
+// resolvers most recently added first. A name that is still being evaluated is
+// a cyclic reference, which a resolver that knows the name absorbs. With deep
+// set, an object reached through the name is evaluated member by member (what
+// unpacking it does); otherwise it is only recognised as an object.
+func (ev *Evaluator) refValue(name string, st []string, deep bool) Res {
 	ev.T.Steps++
 	if ev.T.Steps > 500000 {
 		ev.T.Budget = true
@@ -176,6 +180,7 @@ func (ev *Evaluator) EvalRef(name string, st []string) Res {
 	if onStack(st, name) {
 		ev.T.ReEntry = true
 		if v, i, ok := ev.fromResolvers(name); ok {
+			ev.T.Absorbed = true
 			if v == "" {
 				return Res{IsErr: true, Msg: "unresolved"}
 			}
@@ -184,16 +189,18 @@ func (ev *Evaluator) EvalRef(name string, st []string) Res {
 		}
 		return Res{IsErr: true, Cyclic: true}
 	}
-	if s, ok := ev.W.Root[name]; ok {
+	if _, ok := ev.W.Root[name]; ok {
 		ev.T.Enter[name]++
 		ev.layer("root", -1)
-		if s.Ex == nil {
-			if n, ok := s.Val.(*Node); ok {
-				return Res{Val: n, Container: true}
-			}
-			return Res{S: PlainString(s.Val), Val: s.Val}
+		return ev.EvalSetting(name, append(st, name), deep)
+	}
+	if members := ev.W.Members(name); len(members) > 0 {
+		ev.T.Enter[name]++
+		ev.layer("root", -1)
+		if !deep {
+			return Res{Container: true}
 		}
-		return ev.Eval(s.Ex, append(st, name))
+		return ev.evalMembers(members, append(st, name))
 	}
 	for i := len(ev.W.Envs) - 1; i >= 0; i-- {
 		if v, ok := ev.W.Envs[i][name]; ok {
@@ -211,14 +218,76 @@ func (ev *Evaluator) EvalRef(name string, st []string) Res {
 	return Res{IsErr: true, Msg: "missing"}
 }
 
+// refStr resolves a name in string context: an object is a type error there
+// (and is not evaluated).
+func (ev *Evaluator) refStr(name string, st []string) Res {
+	r := ev.refValue(name, st, false)
+	if r.Container {
+		return Res{IsErr: true, Msg: "type"}
+	}
+	r.Val = nil
+	return r
+}
+
+// EvalSetting evaluates the root setting key. A setting that is exactly one
+// reference takes the referenced value (with its type, possibly an object);
+// everything else is text.
+func (ev *Evaluator) EvalSetting(key string, st []string, deep bool) Res {
+	s := ev.W.Root[key]
+	if s.Ex == nil {
+		if n, ok := s.Val.(*Node); ok {
+			return Res{Val: n, Container: true}
+		}
+		return Res{S: PlainString(s.Val), Val: s.Val}
+	}
+	if s.Ex.IsSingleRef() {
+		return ev.refValue(s.Ex.Name.Text, st, deep)
+	}
+	return ev.Eval(s.Ex, st)
+}
+
+// Members lists the settings below the object path name (sorted).
+func (w *World) Members(name string) []string {
+	var out []string
+	for k := range w.Root {
+		if strings.HasPrefix(k, name+".") {
+			out = append(out, k)
+		}
+	}
+	sort.Strings(out)
+	return out
+}
+
+// evalMembers evaluates all members of an object; the first error wins (which
+// member is met first is not pinned down, so callers only use the class).
+func (ev *Evaluator) evalMembers(members []string, st []string) Res {
+	var firstErr *Res
+	for _, m := range members {
+		ev.T.Enter[m]++
+		r := ev.EvalSetting(m, st, true)
+		if r.IsErr && firstErr == nil {
+			rr := r
+			firstErr = &rr
+		}
+	}
+	if firstErr != nil {
+		return *firstErr
+	}
+	return Res{Container: true}
+}
+
 // exists: ${x:+a} only asks whether x is set.
 func (ev *Evaluator) exists(name string, st []string) bool {
 	if onStack(st, name) {
 		ev.T.ReEntry = true
+		ev.T.Absorbed = true
 		v, _, ok := ev.fromResolvers(name)
 		return ok && v != ""
 	}
 	if _, ok := ev.W.Root[name]; ok {
+		return true
+	}
+	if len(ev.W.Members(name)) > 0 {
 		return true
 	}
 	for i := len(ev.W.Envs) - 1; i >= 0; i-- {
@@ -230,6 +299,7 @@ func (ev *Evaluator) exists(name string, st []string) bool {
 	return ok && v != ""
 }
 
+// Eval evaluates an expression in string context.
 func (ev *Evaluator) Eval(e *Ex, st []string) Res {
 	switch e.Kind {
 	case XLit:
@@ -241,9 +311,6 @@ func (ev *Evaluator) Eval(e *Ex, st []string) Res {
 			if r.IsErr {
 				return r
 			}
-			if r.Container {
-				return Res{IsErr: true, Msg: "type"}
-			}
 			b.WriteString(r.S)
 		}
 		return Res{S: b.String()}
@@ -252,28 +319,29 @@ func (ev *Evaluator) Eval(e *Ex, st []string) Res {
 		if n.IsErr {
 			return n
 		}
-		if n.Container {
-			return Res{IsErr: true, Msg: "type"}
-		}
-		v := ev.EvalRef(n.S, st)
-		if v.Container && e.Name.Kind != XLit {
-			return Res{IsErr: true, Msg: "type"} // a computed name is evaluated in string context
-		}
-		return v
+		return ev.refStr(n.S, st)
 	case XDef:
 		n := ev.Eval(e.Name, st)
-		if n.IsErr || n.Container || n.S == "" {
+		if n.IsErr || n.S == "" {
+			if n.Cyclic {
+				ev.T.Absorbed = true
+			}
 			return ev.Eval(e.Rhs, st)
 		}
-		v := ev.EvalRef(n.S, st)
-		if v.IsErr || v.Container || v.S == "" {
+		v := ev.refStr(n.S, st)
+		if v.IsErr || v.S == "" {
+			if v.Cyclic {
+				ev.T.Absorbed = true
+			}
 			return ev.Eval(e.Rhs, st)
 		}
-		v.Val = nil
 		return v
 	case XAlt:
 		n := ev.Eval(e.Name, st)
-		if n.IsErr || n.Container || n.S == "" {
+		if n.IsErr || n.S == "" {
+			if n.Cyclic {
+				ev.T.Absorbed = true
+			}
 			return Res{S: ""}
 		}
 		if !ev.exists(n.S, st) {
@@ -282,11 +350,16 @@ func (ev *Evaluator) Eval(e *Ex, st []string) Res {
 		return ev.Eval(e.Rhs, st)
 	default: // XErr
 		n := ev.Eval(e.Name, st)
-		if !n.IsErr && !n.Container && n.S != "" {
-			v := ev.EvalRef(n.S, st)
-			if !v.IsErr && !v.Container && v.S != "" {
-				v.Val = nil
+		if n.Cyclic {
+			ev.T.Absorbed = true
+		}
+		if !n.IsErr && n.S != "" {
+			v := ev.refStr(n.S, st)
+			if !v.IsErr && v.S != "" {
 				return v
+			}
+			if v.Cyclic {
+				ev.T.Absorbed = true
 			}
 		}
 		m := ev.Eval(e.Rhs, st)
